@@ -35,33 +35,43 @@ DEBUG_RS = os.path.join(common.REPO, "impl", "src", "fmt", "debug.rs")
 # ------------------------------------------------------------------ T-gen: name sites
 
 def read_name_sites():
-    """(sites dict, lines dict) from the source of Expansion::generate_body"""
-    src = open(DEBUG_RS).read()
+    """(sites, lines, problems) from the source of Expansion::generate_body.  FAIL-SOFT: a site that is not in a
+    recognised form is None (and named in `problems`); the caller records a broken tie and goes on with the model's
+    own switch value, so the run-time oracle still gets to show the concrete failing input."""
+    sites = {"unit": None, "tuple": None, "named": None, "field": None}
+    lines = {}
+    problems = []
+    try:
+        src = open(DEBUG_RS).read()
+    except OSError as e:
+        return sites, lines, ["cannot read %s: %r" % (DEBUG_RS, e)]
     m = re.search(r"fn generate_body\(&self\).*?\n    }\n", src, re.S)
     if not m:
-        raise common.BuildError("C06 translator: generate_body not found in debug.rs")
+        return sites, lines, ["generate_body not found in debug.rs"]
     body = m.group(0)
     off = m.start()
     i_unit = body.find("syn::Fields::Unit =>")
     i_unn = body.find("syn::Fields::Unnamed(")
     i_nam = body.find("syn::Fields::Named(")
     if not (0 <= i_unit < i_unn < i_nam):
-        raise common.BuildError("C06 translator: the three arms of generate_body were not found in order")
+        return sites, lines, ["the three arms of generate_body were not found in order"]
     arms = {"unit": (i_unit, i_unn), "tuple": (i_unn, i_nam), "named": (i_nam, len(body))}
-    sites, lines = {}, {}
     for k, (a, b) in arms.items():
         ms = list(re.finditer(r"self\s*\.\s*ident\s*(\.\s*unraw\(\)\s*)?\.\s*to_string\(\)", body[a:b]))
         if len(ms) != 1:
-            raise common.BuildError("C06 translator: expected one `self.ident...to_string()` in the %s arm, found %d" % (k, len(ms)))
+            problems.append("expected one `self.ident...to_string()` in the %s arm (line %d ff.), found %d" % (
+                k, src.count("\n", 0, off + a) + 1, len(ms)))
+            continue
         sites[k] = ms[0].group(1) is not None
         lines[k] = src.count("\n", 0, off + a + ms[0].start()) + 1
     a, b = arms["named"]
     ms = list(re.finditer(r"field_ident\s*(\.\s*unraw\(\)\s*)?\.\s*to_string\(\)", body[a:b]))
     if len(ms) != 1:
-        raise common.BuildError("C06 translator: expected one `field_ident...to_string()`, found %d" % len(ms))
-    sites["field"] = ms[0].group(1) is not None
-    lines["field"] = src.count("\n", 0, off + a + ms[0].start()) + 1
-    return sites, lines
+        problems.append("expected one `field_ident...to_string()` in the named arm, found %d" % len(ms))
+    else:
+        sites["field"] = ms[0].group(1) is not None
+        lines["field"] = src.count("\n", 0, off + a + ms[0].start()) + 1
+    return sites, lines, problems
 
 
 def sites_coq(s):
@@ -155,12 +165,21 @@ def lit_value(tok):
     return tok[1:-1]
 
 
+def name_of(x):
+    """the name argument of a builder constructor / write_str: a string literal, or stringify!(ident)"""
+    if x[0] == "lit":
+        return lit_value(x[1])
+    if x[0] == "macro" and x[1].endswith("stringify"):
+        return "".join(x[2])
+    raise ValueError("name is neither a literal nor stringify!: %r" % (x,))
+
+
 def chain(e):
     """builder-call tree -> (kind, name, [(field name | None, value expr)], exhaustive)"""
     assert e[0] == "call", e
     p = e[1]
     if p.endswith("Formatter::write_str"):
-        return ("unit", lit_value(e[2][1][1]), [], True)
+        return ("unit", name_of(e[2][1]), [], True)
     fin = p.rsplit("::", 1)[1]
     assert fin in ("finish", "finish_non_exhaustive"), p
     owner = p.rsplit("::", 1)[0]
@@ -169,13 +188,13 @@ def chain(e):
     while x[0] == "call":
         assert x[1] == owner + "::field", x[1]
         if owner.endswith("DebugStruct"):
-            fields.append((lit_value(x[2][1][1]), x[2][2]))
+            fields.append((name_of(x[2][1]), x[2][2]))
         else:
             fields.append((None, x[2][1]))
         x = x[2][0]
     assert x[0] == "ref" and x[1][0] == "call", x
     ctor = x[1][1]
-    name = lit_value(x[1][2][1][1])
+    name = name_of(x[1][2][1])
     fields.reverse()
     if owner == "derive_more::__private::DebugTuple" and ctor == "derive_more::__private::debug_tuple":
         kind = "dm_tuple"
@@ -361,6 +380,22 @@ def build_cases(gen, rng, tier):
         case = {"items": []}
         it = gen.struct(case, nm(0), "named", rng.randrange(1, 5), [], depth=0, p_adt=0, raw_p=0.8)
         add("raw-fields", [it], [A(0)])
+    # raw-named UNIT structs / unit variants (plus S() / S {}), top-level and nested in tuple/named structs and containers
+    for rep in range(6 if tier == "quick" else 20):
+        raws = rng.sample(G.RAW_NAMES, 5)
+        items = [{"kind": "struct", "name": G.ident(raws[0], True), "params": [], "fields": {"kind": "unit", "list": []}},
+                 {"kind": "enum", "name": G.ident(raws[1], True) if rep % 2 else nm(1), "params": [], "variants": [
+                     {"name": G.ident(raws[2], True), "fields": {"kind": "unit", "list": []}},
+                     {"name": G.ident(raws[3], True), "fields": {"kind": rng.choice(["tuple", "named"]), "list": []}},
+                     {"name": G.ident("Plain"), "fields": {"kind": "unit", "list": []}}]}]
+        case = {"items": items}
+        outer_kind = ["tuple", "named"][rep % 2]
+        names = [G.ident("u"), G.ident(raws[4], True), G.ident("w")]
+        tys = [A(0), rng.choice([["vec", A(1)], ["opt", A(1)], ["tup", [A(1), A(0)]]]), A(1)]
+        items.append({"kind": "struct", "name": nm(2), "params": [], "fields": {"kind": outer_kind, "list": [
+            {"name": names[i] if outer_kind == "named" else None, "ty": tys[i], "attr": None} for i in range(3)]}})
+        add("raw-unit", items, [A(0), A(1)])
+        add("raw-unit-nested", items, [A(2), ["vec", A(2)]], per_variant=False, nvals=2)
     # --- B. nesting 3 deep, mixed with std containers
     for rep in range(40 if tier == "quick" else 200):
         case = {"items": []}
@@ -585,8 +620,8 @@ def run(tier, seed, replay):
     chk = common.Check("C06", tier, seed)
     rng = chk.rng
     inproc = common.build_inproc()
-    sites, site_lines = read_name_sites()
-    chk.notes.append("name sites read from debug.rs (unraw applied?): %s at lines %s" % (sites, site_lines))
+    read_sites, site_lines, site_problems = read_name_sites()
+    chk.notes.append("name sites read from debug.rs (unraw applied? None = not recognised): %s at lines %s" % (read_sites, site_lines))
     st = common.check_proofs(chk, "C06")
     # Model.current_sites (what the theorems about the current tree are stated for) must be what the source says
     try:
@@ -595,10 +630,18 @@ def run(tier, seed, replay):
     except Exception as e:       # Model.v does not build: check_proofs has already recorded that
         model_sites = None
         chk.notes.append("current_sites could not be evaluated: %r" % (e,))
-    if model_sites is not None and model_sites != sites:
-        chk.violation("tie-name-sites", {"model_current_sites": model_sites, "debug_rs": sites, "lines": site_lines},
+    fallback = model_sites or {"unit": True, "tuple": True, "named": True, "field": True}
+    # fail-soft: unreadable sites take the model's value, the broken tie is recorded, the differential run goes on
+    sites = {k: (fallback[k] if v is None else v) for k, v in read_sites.items()}
+    if site_problems:
+        chk.violation("tie-name-sites", {"problems": site_problems, "debug_rs_reading": read_sites, "model_current_sites": model_sites},
+                      "the name sites of generate_body are no longer in a form the translator recognises (%s); continuing with "
+                      "Model.current_sites for them - see the run-time classes for a concrete failing input" % "; ".join(site_problems),
+                      no_input=True)
+    elif model_sites is not None and model_sites != read_sites:
+        chk.violation("tie-name-sites", {"model_current_sites": model_sites, "debug_rs": read_sites, "lines": site_lines},
                       "Model.current_sites %s is not what debug.rs does now %s (lines %s); the differential run below uses "
-                      "the source's reading" % (model_sites, sites, site_lines), no_input=True)
+                      "the source's reading" % (model_sites, read_sites, site_lines), no_input=True)
 
     leaves = G.Leaves()
     gen = G.Gen(rng, leaves)
@@ -774,7 +817,10 @@ def run(tier, seed, replay):
             # ---- the oracle: byte-for-byte against std
             if rdm != rsd:
                 causes = []
-                if tie_ok:
+                if G.value_has_raw(case, vv["v"]) and rdm.replace("r#", "") == rsd:
+                    # model-independent: the only difference is an `r#` prefix on a name
+                    causes.append("raw-ident-name")
+                elif tie_ok:
                     # all three model signatures equal the real ones here, so compare signatures
                     fixed = flat3(mfx[k]) if mfx else flat3(mdm[k])
                     if fixed != flat3(mdm[k]):
@@ -810,7 +856,7 @@ def run(tier, seed, replay):
              "+ random items through the in-process expansion for the decision tie; non-trivial = at least one builder field "
              "is printed; distinct by (case, value, spec)",
         trusted=TRUSTED,
-        extra={"name_sites": sites, "name_site_lines": site_lines, "specs": G.TOP_TXT})
+        extra={"name_sites": sites, "name_sites_read": read_sites, "name_site_lines": site_lines, "specs": G.TOP_TXT})
 
 
 META = {
